@@ -27,7 +27,7 @@ RULE += (' Also: source flavours async_class_bare / async_class_future (non-coro
 ASSUMPTIONS = ["baseline (list + def) behaviour itself is judged by C01/C02, not here"]
 EXHAUSTIVE = {"quick": False, "thorough": False}
 N_SPECS = {"quick": 6000, "thorough": 200000}
-SRC_FL = ["list", "getitem_seq", "sync_iter", "async_gen", "async_class", "async_class_bare", "async_class_future"]
+SRC_FL = ["list", "getitem_seq", "sync_iter", "async_gen", "async_class", "async_class_bare", "async_class_future", "async_class_lazy"]
 FN_FL = ["def", "async_def", "partial", "callobj", "awaitobj"]
 
 
